@@ -271,6 +271,6 @@ package p2pke
 
 // ---- the InitHello body is parsed without panicking, whatever its trailing length field says ------
 //@ func parseInitHello
-//@   noframe
+//@   ensures [result] ret1 == nil ==> ret0 != nil && fresh(ret0)
 //@   ensures [short] len(body) < 2 ==> ret1 != nil
 //@   ensures [badlen] len(body) >= 2 && body[len(body)-2]*256 + body[len(body)-1] > len(body) - 2 ==> ret1 != nil
